@@ -140,7 +140,7 @@ def check_cmp(case):
 
 # ------------------------------------------------------------------------------------------------ sort
 
-S = ['None', '1', '2', '1.5', 'nan', "'a'", "'b'", 'dt', '+inf', '-inf']           # names; objects are built per case
+S = ['None', '1', '2', '1.5', 'nan', "'a'", "'b'", 'dt', '+inf', '-inf', "'aa'"]   # names; objects are built per case ('aa' is longer than 'b' but sorts before it)
 
 
 def _mk(name, shared_nan):
@@ -160,6 +160,8 @@ def _mk(name, shared_nan):
         return 'a'
     if name == "'b'":
         return 'b'
+    if name == "'aa'":
+        return 'aa'
     if name == 'dt':
         return datetime.datetime(2000, 1, 1)
     if name == '+inf':
@@ -310,6 +312,9 @@ def check_table(case):
                     return r
             return len(order)
         spellings.append(('sort(a=%r)' % (order,), lambda d, order=order: d.sort(a=list(order)), [(rank(x),) for x in a]))
+        spellings.append(('sort(a=tuple%r)' % (tuple(order),), lambda d, order=order: d.sort(a=tuple(order)), [(rank(x),) for x in a]))
+        if None not in order:
+            spellings.append(('sort(a=np.array(%r, dtype=object))' % (order,), lambda d, order=order: d.sort(a=np.array(order, dtype=object)), [(rank(x),) for x in a]))
     spellings.append(('sort(b=[2,1], a=[1])', lambda d: d.sort(b=[2, 1], a=[1]),
                       [((0 if (type(y) in (int, float) and y == 2) else 1 if (type(y) in (int, float) and y == 1) else 2), (0 if (type(x) in (int, float) and x == 1) else 1))
                        for x, y in zip(a, b)]))        # the FIRST order given is the primary one, whatever the column order of the table
